@@ -1,4 +1,678 @@
-import LenaModel.Model.C13
-/-! # C13 — property theorems (work in progress) -/
+import LenaModel.Lemmas.C13Pass
+/-! # C13 — static context seen by an element depends only on what encloses and precedes it
+
+Property (properties.jsonl): *The static context an element receives at initialisation is the fold, in
+document order, of the SetContext updates of the earlier elements of its enclosing sequences (formatting
+strings resolved against that same prefix); a Split hands each branch an independent copy and exports the
+intersection of its branches' contexts, and no later or sibling element can change what an earlier element
+saw or the name it derived from it.  A formatting key that cannot be resolved surfaces as LenaKeyError naming
+the key when the sequence's context is requested, and static context never leaks into the run-time context
+except through UpdateContextFromStatic.*
+
+The model (`Model/C13.lean`) transcribes the real multi-pass protocol: `build` constructs the objects
+bottom-up, every sequence running `_set_context({})` over its children in its constructor (`loop`, with the
+skip-while-empty optimisation, stale `_static_context`s and the two ways a `LenaKeyError` ends the loop).
+The specification is the single top-down fold `fold` / `ctxAt`.  All theorems are for every program `t`
+(any depth, any number of elements and branches) over every key alphabet size `n`.
+
+Main technical result (`Lemmas/C13Pass.lean`): `build_eq_final : build n t = final n t [{}]` where
+`final t F` puts every object into the state that the *last* context reaching it (computed by the
+specification fold) leaves it in.  Its proof needs that everything the fold computes is monotone in the
+information order `⊑` on contexts while it succeeds (`fold_mono`, `Lemmas/C13Dict.lean`) — that is what makes
+skipping elements while the context is empty, and keeping an old `_static_context` when a pass fails, sound. -/
+
 namespace Lena.C13
+open Lena Lena.Val
+
+/-! ## positions -/
+
+def Tree.children : Tree → List Tree
+  | .leaf _ => []
+  | .seq _ cs => cs
+  | .split bs => bs
+
+def St.children : St → List St
+  | .seq _ cs _ => cs
+  | .split bs => bs
+  | _ => []
+
+/-- the sub-program at a path of child indices -/
+def Tree.at? : Tree → List Nat → Option Tree
+  | t, [] => some t
+  | t, i :: p => (t.children[i]?).bind fun c => c.at? p
+
+/-- the object at a path of child indices -/
+def St.at? : St → List Nat → Option St
+  | s, [] => some s
+  | s, i :: p => (s.children[i]?).bind fun c => c.at? p
+
+/-- **the context that the one top-down fold delivers to the node at path `p`** when the context before `t`
+is `c`: through a sequence, the fold of the earlier children (`SetContext` updates with their formatting
+strings resolved against that same prefix, intersections exported by earlier `Split`s); through a `Split`,
+the context of the `Split` itself (every branch gets a copy).  `none`: no such node, or a formatting key of
+the prefix cannot be resolved (then the statement defines nothing). -/
+def ctxAt (n : Nat) : Tree → List Nat → Ctx → Option Ctx
+  | _, [], c => some c
+  | .leaf _, _ :: _, _ => none
+  | .seq _ cs, i :: p, c =>
+    (cs[i]?).bind fun t =>
+      match foldL n (cs.take i) c with
+      | .ok c' => ctxAt n t p c'
+      | .error _ => none
+  | .split bs, i :: p, c => (bs[i]?).bind fun b => ctxAt n b p c
+
+/-- what encloses and precedes a node: for every enclosing sequence its earlier children (in full), for
+every enclosing `Split` nothing but the fact -/
+inductive ConeStep where
+  | seq (earlier : List Tree)
+  | split
+
+def cone : Tree → List Nat → Option (List ConeStep)
+  | _, [] => some []
+  | .leaf _, _ :: _ => none
+  | .seq _ cs, i :: p => (cs[i]?).bind fun c => (cone c p).map (ConeStep.seq (cs.take i) :: ·)
+  | .split bs, i :: p => (bs[i]?).bind fun b => (cone b p).map (ConeStep.split :: ·)
+
+/-! ## every object is in the state of its own history, and the history is a function of the cone -/
+
+/-- the contexts that get past a list of consecutive elements -/
+def pastL (n : Nat) : List Tree → List Ctx → List Ctx
+  | [], F => F
+  | t :: ts, F => pastL n ts (pastT n t F)
+
+/-- the history of the node below the enclosing containers `k`, when the history of the outermost one is `F` -/
+def histOfCone (n : Nat) : List ConeStep → List Ctx → List Ctx
+  | [], F => F
+  | .seq earlier :: k, F => histOfCone n k (Val.empty n :: pastL n earlier F)
+  | .split :: k, F => histOfCone n k (Val.empty n :: F)
+
+theorem finalL_getElem (n : Nat) : ∀ (ts : List Tree) (F : List Ctx) (i : Nat),
+    (finalL n ts F)[i]? = (ts[i]?).map fun c => final n c (Val.empty n :: pastL n (ts.take i) F)
+  | [], _, _ => by simp [finalL]
+  | t :: ts, F, 0 => by simp [finalL, pastL]
+  | t :: ts, F, i + 1 => by simp [finalL, pastL, finalL_getElem n ts (pastT n t F) i]
+
+theorem finalB_getElem (n : Nat) : ∀ (bs : List Tree) (F : List Ctx) (i : Nat),
+    (finalB n bs F)[i]? = (bs[i]?).map fun b => final n b (Val.empty n :: F)
+  | [], _, _ => by simp [finalB]
+  | b :: bs, F, 0 => by simp [finalB]
+  | b :: bs, F, i + 1 => by simp [finalB, finalB_getElem n bs F i]
+
+/-- locality of the closed form: the object at `p` is in the closed-form state of the sub-program at `p`,
+for a history that is computed from the cone of `p` alone -/
+theorem final_at (n : Nat) : ∀ (p : List Nat) (t s : Tree) (k : List ConeStep) (F : List Ctx),
+    t.at? p = some s → cone t p = some k → (final n t F).at? p = some (final n s (histOfCone n k F))
+  | [], t, s, k, F, hs, hk => by
+    simp only [Tree.at?, Option.some.injEq] at hs
+    simp only [cone, Option.some.injEq] at hk
+    subst hs; subst hk
+    simp [St.at?, histOfCone]
+  | i :: p, .leaf e, s, k, F, hs, _ => by simp [Tree.at?, Tree.children] at hs
+  | i :: p, .seq kind cs, s, k, F, hs, hk => by
+    simp only [Tree.at?, Tree.children] at hs
+    simp only [cone] at hk
+    cases hc : cs[i]? with
+    | none => simp [hc] at hs
+    | some c =>
+      simp only [hc, Option.bind_some] at hs hk
+      cases hk' : cone c p with
+      | none => simp [hk'] at hk
+      | some k' =>
+        simp only [hk', Option.map_some, Option.some.injEq] at hk
+        subst hk
+        simp only [St.at?, final, St.children, finalL_getElem, hc, Option.map_some, Option.bind_some, histOfCone]
+        exact final_at n p c s k' _ hs hk'
+  | i :: p, .split bs, s, k, F, hs, hk => by
+    simp only [Tree.at?, Tree.children] at hs
+    simp only [cone] at hk
+    cases hc : bs[i]? with
+    | none => simp [hc] at hs
+    | some c =>
+      simp only [hc, Option.bind_some] at hs hk
+      cases hk' : cone c p with
+      | none => simp [hk'] at hk
+      | some k' =>
+        simp only [hk', Option.map_some, Option.some.injEq] at hk
+        subst hk
+        simp only [St.at?, final, St.children, finalB_getElem, hc, Option.map_some, Option.bind_some, histOfCone]
+        exact final_at n p c s k' _ hs hk'
+
+/-- every node has a cone -/
+theorem cone_isSome : ∀ (p : List Nat) (t s : Tree), t.at? p = some s → ∃ k, cone t p = some k
+  | [], _, _, _ => ⟨[], by simp [cone]⟩
+  | i :: p, .leaf e, s, hs => by simp [Tree.at?, Tree.children] at hs
+  | i :: p, .seq kind cs, s, hs => by
+    simp only [Tree.at?, Tree.children] at hs
+    cases hc : cs[i]? with
+    | none => simp [hc] at hs
+    | some c =>
+      simp only [hc, Option.bind_some] at hs
+      obtain ⟨k, hk⟩ := cone_isSome p c s hs
+      exact ⟨ConeStep.seq (cs.take i) :: k, by simp [cone, hc, hk]⟩
+  | i :: p, .split bs, s, hs => by
+    simp only [Tree.at?, Tree.children] at hs
+    cases hc : bs[i]? with
+    | none => simp [hc] at hs
+    | some c =>
+      simp only [hc, Option.bind_some] at hs
+      obtain ⟨k, hk⟩ := cone_isSome p c s hs
+      exact ⟨ConeStep.split :: k, by simp [cone, hc, hk]⟩
+
+/-! ## the last context of the history is the prefix fold -/
+
+theorem pastT_last (n : Nat) (t : Tree) (F : List Ctx) (c' : Ctx) (hF : F ≠ [])
+    (h : fold n t (lastD n F) = .ok c') : pastT n t F ≠ [] ∧ lastD n (pastT n t F) = c' := by
+  obtain ⟨F', a, rfl⟩ : ∃ F' a, F = F' ++ [a] :=
+    ⟨F.dropLast, F.getLast hF, (List.dropLast_concat_getLast hF).symm⟩
+  rw [lastD_append_singleton] at h
+  rw [pastT_snoc_ok n t F' a c' h]
+  exact ⟨by simp, lastD_append_singleton n _ c'⟩
+
+theorem pastL_last (n : Nat) : ∀ (ts : List Tree) (F : List Ctx) (c' : Ctx), F ≠ [] →
+    foldL n ts (lastD n F) = .ok c' → pastL n ts F ≠ [] ∧ lastD n (pastL n ts F) = c'
+  | [], F, c', hF, h => by
+    simp only [foldL, Except.ok.injEq] at h
+    exact ⟨hF, h⟩
+  | t :: ts, F, c', hF, h => by
+    simp only [foldL] at h
+    cases ht : fold n t (lastD n F) with
+    | error e => simp [ht] at h
+    | ok c1 =>
+      simp only [ht] at h
+      obtain ⟨h1, h2⟩ := pastT_last n t F c1 hF ht
+      simp only [pastL]
+      exact pastL_last n ts _ c' h1 (by rw [h2]; exact h)
+
+/-- the history of the node at `p` ends with the context that the top-down fold delivers to it -/
+theorem hist_last (n : Nat) : ∀ (p : List Nat) (t : Tree) (k : List ConeStep) (F : List Ctx) (x : Ctx), F ≠ [] →
+    cone t p = some k → ctxAt n t p (lastD n F) = some x → lastD n (histOfCone n k F) = x
+  | [], t, k, F, x, _, hk, hx => by
+    simp only [cone, Option.some.injEq] at hk
+    simp only [ctxAt, Option.some.injEq] at hx
+    subst hk
+    simpa [histOfCone] using hx
+  | i :: p, .leaf e, k, F, x, _, hk, _ => by simp [cone] at hk
+  | i :: p, .seq kind cs, k, F, x, hF, hk, hx => by
+    simp only [cone] at hk
+    simp only [ctxAt] at hx
+    cases hc : cs[i]? with
+    | none => simp [hc] at hk
+    | some c =>
+      simp only [hc, Option.bind_some] at hk hx
+      cases hk' : cone c p with
+      | none => simp [hk'] at hk
+      | some k' =>
+        simp only [hk', Option.map_some, Option.some.injEq] at hk
+        subst hk
+        cases hf : foldL n (cs.take i) (lastD n F) with
+        | error e => simp [hf] at hx
+        | ok c' =>
+          simp only [hf] at hx
+          obtain ⟨_, h2⟩ := pastL_last n (cs.take i) F c' hF hf
+          simp only [histOfCone]
+          exact hist_last n p c k' _ x (by simp) hk' (by rw [lastD_cons_empty, h2]; exact hx)
+  | i :: p, .split bs, k, F, x, _, hk, hx => by
+    simp only [cone] at hk
+    simp only [ctxAt] at hx
+    cases hc : bs[i]? with
+    | none => simp [hc] at hk
+    | some c =>
+      simp only [hc, Option.bind_some] at hk hx
+      cases hk' : cone c p with
+      | none => simp [hk'] at hk
+      | some k' =>
+        simp only [hk', Option.map_some, Option.some.injEq] at hk
+        subst hk
+        simp only [histOfCone]
+        exact hist_last n p c k' _ x (by simp) hk' (by rw [lastD_cons_empty]; exact hx)
+
+/-! ## the property -/
+
+/-- **seen = prefix fold, for every node** (first sentence of the property).  If the one top-down fold
+delivers the context `x` to the node at `p` (i.e. the formatting keys of what encloses and precedes it can
+be resolved), then after the construction of the whole program by the real multi-pass protocol the objects
+of the sub-program at `p` are in a closed-form state whose last delivered context is `x`. -/
+theorem seen_is_prefix_fold_node (n : Nat) (t s : Tree) (p : List Nat) (x : Ctx)
+    (hs : t.at? p = some s) (hx : ctxAt n t p (Val.empty n) = some x) :
+    ∃ G, (build n t).at? p = some (final n s G) ∧ lastD n G = x := by
+  obtain ⟨k, hk⟩ := cone_isSome p t s hs
+  refine ⟨histOfCone n k [Val.empty n], ?_, ?_⟩
+  · rw [build_eq_final]; exact final_at n p t s k _ hs hk
+  · exact hist_last n p t k [Val.empty n] x (by simp) hk (by simpa [lastD] using hx)
+
+/-- **seen = prefix fold, for a leaf element** (`StoreContext`, `UpdateContextFromStatic`, `MakeFilename`,
+`Write`, `Cache`, `SetContext` at every position, in every tree): the element is exactly in the state
+`leafFinal e x` that `_set_context(x)` leaves a fresh element in — it stores `x` (store, ucfs, mkf), the name
+formatted from `x` (write, cache), the update of `x` or the `LenaKeyError` of formatting against `x` (set). -/
+theorem seen_is_prefix_fold (n : Nat) (t : Tree) (p : List Nat) (e : Elem) (x : Ctx)
+    (hs : t.at? p = some (.leaf e)) (hx : ctxAt n t p (Val.empty n) = some x) :
+    (build n t).at? p = some (leafFinal n e x) := by
+  obtain ⟨G, h1, h2⟩ := seen_is_prefix_fold_node n t (.leaf e) p x hs hx
+  rw [h1]; simp [final, h2]
+
+/-- `leafFinal e x` is what the code's `_set_context(x)` does to a freshly constructed element
+(for a non-empty `x`; an empty context is never delivered to an element by a sequence) -/
+theorem leafFinal_is_setCtx (n : Nat) (e : Elem) (x : Ctx) (hl : x.length = n) (hne : nonEmpty x = true) :
+    leafFinal n e x = (setCtx n (initElem n e) x).1 := by
+  have h := (setCtx_final n (.leaf e) [] x ⟨by simp, hl⟩ hne).1
+  simp only [final, List.nil_append, lastD, List.getLastD_nil, List.getLastD_cons] at h
+  rw [initElem_eq, h]
+
+/-- **causality** (second sentence: "no later or sibling element can change what an earlier element saw or
+the name it derived from it").  Two programs, two positions with the same cone (the same earlier children in
+every enclosing sequence; anything at all after them, any sibling branches in enclosing `Split`s, any kinds
+of sequences) and the same sub-program at the position: after construction the objects of that sub-program
+are in the *same state* — contexts stored, names derived, `_get_context` results, resolved or not. -/
+theorem causality (n : Nat) (t t' s : Tree) (p p' : List Nat) (k : List ConeStep)
+    (hk : cone t p = some k) (hk' : cone t' p' = some k)
+    (hs : t.at? p = some s) (hs' : t'.at? p' = some s) :
+    (build n t).at? p = (build n t').at? p' := by
+  rw [build_eq_final, build_eq_final, final_at n p t s k _ hs hk, final_at n p' t' s k _ hs' hk']
+
+/-- causality, instance: everything after an element of a sequence can be replaced by anything -/
+theorem causality_later (n : Nat) (kind kind' : Kind) (pre post post' : List Tree) (x : Tree) (p : List Nat) :
+    (build n (.seq kind (pre ++ x :: post))).at? (pre.length :: p) =
+    (build n (.seq kind' (pre ++ x :: post'))).at? (pre.length :: p) := by
+  cases hs : x.at? p with
+  | none =>
+    have h1 : ∀ (q : List Tree) (kd : Kind), (build n (.seq kd (pre ++ x :: q))).at? (pre.length :: p) = none := by
+      intro q kd
+      rw [build_eq_final]
+      simp only [St.at?, final, St.children, finalL_getElem]
+      simp only [List.getElem?_append_right (Nat.le_refl _), Nat.sub_self, List.getElem?_cons_zero,
+        Option.map_some, Option.bind_some]
+      exact at_none n p x _ hs
+    rw [h1, h1]
+  | some s =>
+    obtain ⟨k, hk⟩ := cone_isSome p x s hs
+    have hat : ∀ (q : List Tree) (kd : Kind), (Tree.seq kd (pre ++ x :: q)).at? (pre.length :: p) = some s := by
+      intro q kd; simp [Tree.at?, Tree.children, hs]
+    have hcone : ∀ (q : List Tree) (kd : Kind),
+        cone (.seq kd (pre ++ x :: q)) (pre.length :: p) = some (ConeStep.seq pre :: k) := by
+      intro q kd; simp [cone, hk]
+    exact causality n _ _ s _ _ _ (hcone post kind) (hcone post' kind') (hat post kind) (hat post' kind')
+where
+  at_none (n : Nat) : ∀ (p : List Nat) (x : Tree) (F : List Ctx), x.at? p = none → (final n x F).at? p = none
+    | [], _, _, h => by simp [Tree.at?] at h
+    | i :: p, .leaf e, F, _ => by cases e <;> simp [St.at?, final, leafFinal, St.children]
+    | i :: p, .seq kd cs, F, h => by
+      simp only [Tree.at?, Tree.children] at h
+      simp only [St.at?, final, St.children, finalL_getElem]
+      cases hc : cs[i]? with
+      | none => simp
+      | some c =>
+        simp only [hc, Option.bind_some] at h
+        simp only [Option.map_some, Option.bind_some]
+        exact at_none n p c _ h
+    | i :: p, .split bs, F, h => by
+      simp only [Tree.at?, Tree.children] at h
+      simp only [St.at?, final, St.children, finalB_getElem]
+      cases hc : bs[i]? with
+      | none => simp
+      | some c =>
+        simp only [hc, Option.bind_some] at h
+        simp only [Option.map_some, Option.bind_some]
+        exact at_none n p c _ h
+
+/-- causality, instance: the sibling branches of an enclosing `Split` can be replaced by anything -/
+theorem causality_sibling (n : Nat) (pre post pre' post' : List Tree) (b s : Tree) (p : List Nat)
+    (hs : b.at? p = some s) :
+    (build n (.split (pre ++ b :: post))).at? (pre.length :: p) =
+    (build n (.split (pre' ++ b :: post'))).at? (pre'.length :: p) := by
+  obtain ⟨k, hk⟩ := cone_isSome p b s hs
+  have hat : ∀ (q r : List Tree), (Tree.split (q ++ b :: r)).at? (q.length :: p) = some s := by
+    intro q r; simp [Tree.at?, Tree.children, hs]
+  have hcone : ∀ (q r : List Tree), cone (.split (q ++ b :: r)) (q.length :: p) = some (ConeStep.split :: k) := by
+    intro q r; simp [cone, hk]
+  exact causality n _ _ s _ _ _ (hcone pre post) (hcone pre' post') (hat pre post) (hat pre' post')
+
+/-- **what `_get_context()` returns is the fold** — for the whole program … -/
+theorem get_context_is_fold (n : Nat) (t : Tree) (hg : t.hasGet = true) :
+    getCtx n (build n t) = fold n t (Val.empty n) := by
+  rw [build_eq_final, getCtx_final n t _ hg]; simp [lastD]
+
+/-- … and for every node with `_get_context` (nested sequence, `Split`, `SetContext`) that the top-down fold
+reaches with context `x`: its `_get_context()` is the fold of the node started from `x` -/
+theorem get_context_at (n : Nat) (t s : Tree) (p : List Nat) (x : Ctx) (hs : t.at? p = some s)
+    (hx : ctxAt n t p (Val.empty n) = some x) (hg : s.hasGet = true) :
+    ∃ st, (build n t).at? p = some st ∧ getCtx n st = fold n s x := by
+  obtain ⟨G, h1, h2⟩ := seen_is_prefix_fold_node n t s p x hs hx
+  exact ⟨_, h1, by rw [getCtx_final n s G hg, h2]⟩
+
+/-- **a `Split` hands each branch a copy of its context** (specification side: the context delivered inside
+branch `i` is computed from the context of the `Split`, whatever the other branches are) … -/
+theorem ctxAt_split (n : Nat) (bs : List Tree) (b : Tree) (i : Nat) (q : List Nat) (c : Ctx) (hb : bs[i]? = some b) :
+    ctxAt n (.split bs) (i :: q) c = ctxAt n b q c := by
+  simp [ctxAt, hb]
+
+/-- … **and exports the intersection of its branches' contexts**: a `Split` reached with context `x` returns
+from `_get_context()` the `intersection` of the contexts its branches export when each is started from `x`
+(or the first `LenaKeyError` among them) -/
+theorem split_exports_intersection (n : Nat) (t : Tree) (bs : List Tree) (p : List Nat) (x : Ctx)
+    (hs : t.at? p = some (.split bs)) (hx : ctxAt n t p (Val.empty n) = some x) :
+    ∃ st, (build n t).at? p = some st ∧
+      getCtx n st = match foldB n bs x with
+        | .ok xs => .ok (interN n xs)
+        | .error e => .error e := by
+  obtain ⟨st, h1, h2⟩ := get_context_at n t (.split bs) p x hs hx rfl
+  refine ⟨st, h1, ?_⟩
+  rw [h2]; simp only [fold]
+  cases foldB n bs x <;> rfl
+
+/-- `interN` is the intersection in the information order: below the context of every branch, and above
+everything that is below all of them -/
+theorem interN_is_meet (n : Nat) (xs : List Ctx) (hne : xs ≠ []) :
+    (∀ x ∈ xs, leL (interN n xs) x) ∧ ∀ y, (∀ x ∈ xs, leL y x) → leL y (interN n xs) :=
+  ⟨fun x hx => interN_le n xs x hx, fun y hy => interN_glb n xs y hne hy⟩
+
+/-- **an unresolved formatting key surfaces**: if the fold of the program meets a formatting field whose key
+`k` cannot be resolved in its prefix, `_get_context()` of the sequence raises `LenaKeyError` carrying `k` -/
+theorem unresolved_key_surfaces (n : Nat) (t : Tree) (k : Nat) (hg : t.hasGet = true)
+    (h : fold n t (Val.empty n) = .error k) : getCtx n (build n t) = .error k := by
+  rw [get_context_is_fold n t hg, h]
+
+/-- the key that a failing lookup names is a component of the field's path that is missing where the
+lookup arrives (`get_recursively`) -/
+theorem getRec_error_mem : ∀ (p : List Nat) (c : Ctx) (k : Nat), getRec c p = .error k → k ∈ p
+  | [], c, k, h => by simp [getRec] at h
+  | [k0], c, k, h => by
+    simp only [getRec] at h
+    cases hs : getSlot c k0 with
+    | none => simp [hs] at h; simp [h]
+    | some v => simp [hs] at h
+  | k0 :: k1 :: ks, c, k, h => by
+    simp only [getRec] at h
+    cases hs : getSlot c k0 with
+    | none => simp [hs] at h; simp [h]
+    | some v =>
+      cases v with
+      | leaf l => simp [hs] at h; simp [h]
+      | dict d =>
+        simp only [hs] at h
+        have := getRec_error_mem (k1 :: ks) d k h
+        simp only [List.mem_cons] at this ⊢
+        exact Or.inr this
+
+/-! ## run time: static context does not leak -/
+
+/-- what `MakeFilename` holds: nothing for an empty context (which is never delivered) -/
+def seenOpt (x : Ctx) : Option Ctx := if nonEmpty x = true then some x else none
+
+mutual
+/-- run-time reference: the flow through the program when the static context before `t` is `c`.  Only
+`UpdateContextFromStatic` (recursive update of the run-time context with the prefix fold) and `MakeFilename`
+(the name it derives) look at `c`. -/
+def runRef (n : Nat) (ok : OutKeys) (src : List Item) : Tree → Ctx → List Item → Option (List Item)
+  | .leaf .ucfs, c, f => some (f.map fun it => (it.1, updL it.2 c))
+  | .leaf (.mkf t), c, f => f.mapM fun it => (mkfCall n ok t (seenOpt c) it.2).map fun x => (it.1, x)
+  | .leaf .src, _, _ => some src
+  | .leaf (.set ..), _, f => some f
+  | .leaf .store, _, f => some f
+  | .leaf (.write _), _, f => some f
+  | .leaf (.cache _), _, f => some f
+  | .leaf .data, _, f => some f
+  | .seq _ cs, c, f => runRefL n ok src cs c f
+  | .split bs, c, f => if bs.isEmpty then some f else runRefB n ok src bs c f
+def runRefL (n : Nat) (ok : OutKeys) (src : List Item) : List Tree → Ctx → List Item → Option (List Item)
+  | [], _, f => some f
+  | t :: ts, c, f =>
+    match runRef n ok src t c f with
+    | none => none
+    | some f' =>
+      match fold n t c with
+      | .ok c' => runRefL n ok src ts c' f'
+      | .error _ => runRefL n ok src ts c f'        -- (not reached when the fold of the sequence succeeds)
+def runRefB (n : Nat) (ok : OutKeys) (src : List Item) : List Tree → Ctx → List Item → Option (List Item)
+  | [], _, _ => some []
+  | b :: bs, c, f =>
+    match runRef n ok src b c f, runRefB n ok src bs c f with
+    | some x, some y => some (x ++ y)
+    | _, _ => none
+end
+
+mutual
+/-- the flow through a program that ignores static context altogether -/
+def runPlain (src : List Item) : Tree → List Item → List Item
+  | .leaf .src, _ => src
+  | .leaf (.set ..), f => f
+  | .leaf .store, f => f
+  | .leaf .ucfs, f => f
+  | .leaf (.mkf _), f => f
+  | .leaf (.write _), f => f
+  | .leaf (.cache _), f => f
+  | .leaf .data, f => f
+  | .seq _ cs, f => runPlainL src cs f
+  | .split bs, f => if bs.isEmpty then f else runPlainB src bs f
+def runPlainL (src : List Item) : List Tree → List Item → List Item
+  | [], f => f
+  | t :: ts, f => runPlainL src ts (runPlain src t f)
+def runPlainB (src : List Item) : List Tree → List Item → List Item
+  | [], _ => []
+  | b :: bs, f => runPlain src b f ++ runPlainB src bs f
+end
+
+mutual
+/-- no `UpdateContextFromStatic` and no `MakeFilename` anywhere in the program -/
+def Tree.noConsumer : Tree → Bool
+  | .leaf .ucfs => false
+  | .leaf (.mkf _) => false
+  | .leaf _ => true
+  | .seq _ cs => noConsumerL cs
+  | .split bs => noConsumerL bs
+def noConsumerL : List Tree → Bool
+  | [] => true
+  | t :: ts => t.noConsumer && noConsumerL ts
+end
+
+theorem finalB_isEmpty (n : Nat) (bs : List Tree) (F : List Ctx) : (finalB n bs F).isEmpty = bs.isEmpty := by
+  cases bs <;> simp [finalB]
+
+mutual
+/-- **no leak** (last sentence of the property, first half): in a program without `UpdateContextFromStatic`
+and `MakeFilename` the run-time flow is the one of the program with all static context ignored — whatever
+the `SetContext`s set, resolved or not, in every state the protocol can produce -/
+theorem run_noConsumer (n : Nat) (ok : OutKeys) (src : List Item) : ∀ (t : Tree) (F : List Ctx) (f : List Item),
+    t.noConsumer = true → run n ok src (final n t F) f = some (runPlain src t f)
+  | .leaf (.set ..), F, f, _ => by simp [final, leafFinal, run, runPlain]
+  | .leaf .store, F, f, _ => by simp [final, leafFinal, run, runPlain]
+  | .leaf .ucfs, F, f, h => by simp [Tree.noConsumer] at h
+  | .leaf (.mkf _), F, f, h => by simp [Tree.noConsumer] at h
+  | .leaf (.write _), F, f, _ => by simp [final, leafFinal, run, runPlain]
+  | .leaf (.cache _), F, f, _ => by simp [final, leafFinal, run, runPlain]
+  | .leaf .data, F, f, _ => by simp [final, leafFinal, run, runPlain]
+  | .leaf .src, F, f, _ => by simp [final, leafFinal, run, runPlain]
+  | .seq kind cs, F, f, h => by
+    simp only [Tree.noConsumer] at h
+    simp only [final, run, runPlain]
+    exact runL_noConsumer n ok src cs F f h
+  | .split bs, F, f, h => by
+    simp only [Tree.noConsumer] at h
+    simp only [final, run, runPlain, finalB_isEmpty]
+    by_cases he : bs.isEmpty = true
+    · simp [he]
+    · simp only [he]
+      exact runB_noConsumer n ok src bs F f h
+theorem runL_noConsumer (n : Nat) (ok : OutKeys) (src : List Item) : ∀ (ts : List Tree) (F : List Ctx) (f : List Item),
+    noConsumerL ts = true → runL n ok src (finalL n ts F) f = some (runPlainL src ts f)
+  | [], F, f, _ => by simp [finalL, runL, runPlainL]
+  | t :: ts, F, f, h => by
+    simp only [noConsumerL, Bool.and_eq_true] at h
+    simp only [finalL, runL, runPlainL, run_noConsumer n ok src t _ f h.1]
+    exact runL_noConsumer n ok src ts _ _ h.2
+theorem runB_noConsumer (n : Nat) (ok : OutKeys) (src : List Item) : ∀ (bs : List Tree) (F : List Ctx) (f : List Item),
+    noConsumerL bs = true → runB n ok src (finalB n bs F) f = some (runPlainB src bs f)
+  | [], F, f, _ => by simp [finalB, runB, runPlainB]
+  | b :: bs, F, f, h => by
+    simp only [noConsumerL, Bool.and_eq_true] at h
+    simp only [finalB, runB, runPlainB, run_noConsumer n ok src b _ f h.1, runB_noConsumer n ok src bs F f h.2]
+end
+
+/-- **no leak**, for the constructed program -/
+theorem no_leak_without_consumer (n : Nat) (ok : OutKeys) (src : List Item) (t : Tree) (f : List Item)
+    (h : t.noConsumer = true) : run n ok src (build n t) f = some (runPlain src t f) := by
+  rw [build_eq_final]; exact run_noConsumer n ok src t _ f h
+
+theorem foldB_ok_branch (n : Nat) : ∀ (bs : List Tree) (c : Ctx) (xs : List Ctx), foldB n bs c = .ok xs →
+    ∀ b ∈ bs, ∃ x, fold n b c = .ok x
+  | [], _, _, _ => by simp
+  | b :: bs, c, xs, h => by
+    intro b' hb'
+    simp only [foldB] at h
+    by_cases hg : b.hasGet = true
+    · simp only [hg, if_true] at h
+      cases hb : fold n b c with
+      | error e => simp [hb] at h
+      | ok x =>
+        simp only [hb] at h
+        cases hr : foldB n bs c with
+        | error e => simp [hr] at h
+        | ok xs' =>
+          simp only [List.mem_cons] at hb'
+          rcases hb' with hb' | hb'
+          · subst hb'; exact ⟨x, hb⟩
+          · exact foldB_ok_branch n bs c xs' hr b' hb'
+    · have hg' : b.hasGet = false := by simpa using hg
+      simp only [hg] at h
+      simp only [List.mem_cons] at hb'
+      rcases hb' with hb' | hb'
+      · subst hb'; exact ⟨c, fold_noGet n b' c hg'⟩
+      · exact foldB_ok_branch n bs c xs h b' hb'
+
+mutual
+theorem run_final (n : Nat) (ok : OutKeys) (src : List Item) : ∀ (t : Tree) (F : List Ctx) (f : List Item) (x : Ctx),
+    F ≠ [] → fold n t (lastD n F) = .ok x → run n ok src (final n t F) f = runRef n ok src t (lastD n F) f
+  | .leaf (.set ..), F, f, _, _, _ => by simp [final, leafFinal, run, runRef]
+  | .leaf .store, F, f, _, _, _ => by simp [final, leafFinal, run, runRef]
+  | .leaf .ucfs, F, f, _, _, _ => by simp [final, leafFinal, run, runRef]
+  | .leaf (.mkf _), F, f, _, _, _ => by simp [final, leafFinal, run, runRef, seenOpt]
+  | .leaf (.write _), F, f, _, _, _ => by simp [final, leafFinal, run, runRef]
+  | .leaf (.cache _), F, f, _, _, _ => by simp [final, leafFinal, run, runRef]
+  | .leaf .data, F, f, _, _, _ => by simp [final, leafFinal, run, runRef]
+  | .leaf .src, F, f, _, _, _ => by simp [final, leafFinal, run, runRef]
+  | .seq kind cs, F, f, x, hF, h => by
+    simp only [fold] at h
+    simp only [final, run, runRef]
+    exact runL_final n ok src cs F f x hF h
+  | .split bs, F, f, x, hF, h => by
+    simp only [fold] at h
+    simp only [final, run, runRef, finalB_isEmpty]
+    by_cases he : bs.isEmpty = true
+    · simp [he]
+    · simp only [he]
+      cases hb : foldB n bs (lastD n F) with
+      | error e => simp [hb] at h
+      | ok xs => exact runB_final n ok src bs F f hF (foldB_ok_branch n bs _ xs hb)
+theorem runL_final (n : Nat) (ok : OutKeys) (src : List Item) : ∀ (ts : List Tree) (F : List Ctx) (f : List Item) (x : Ctx),
+    F ≠ [] → foldL n ts (lastD n F) = .ok x → runL n ok src (finalL n ts F) f = runRefL n ok src ts (lastD n F) f
+  | [], F, f, _, _, _ => by simp [finalL, runL, runRefL]
+  | t :: ts, F, f, x, hF, h => by
+    simp only [foldL] at h
+    cases ht : fold n t (lastD n F) with
+    | error e => simp [ht] at h
+    | ok c' =>
+      simp only [ht] at h
+      obtain ⟨h1, h2⟩ := pastT_last n t F c' hF ht
+      have hrun := run_final n ok src t (Val.empty n :: F) f c' (by simp) (by rw [lastD_cons_empty]; exact ht)
+      rw [lastD_cons_empty] at hrun
+      simp only [finalL, runL, runRefL, hrun, ht]
+      cases runRef n ok src t (lastD n F) f with
+      | none => rfl
+      | some f' =>
+        have := runL_final n ok src ts (pastT n t F) f' x h1 (by rw [h2]; exact h)
+        rw [h2] at this
+        exact this
+theorem runB_final (n : Nat) (ok : OutKeys) (src : List Item) : ∀ (bs : List Tree) (F : List Ctx) (f : List Item),
+    F ≠ [] → (∀ b ∈ bs, ∃ x, fold n b (lastD n F) = .ok x) →
+    runB n ok src (finalB n bs F) f = runRefB n ok src bs (lastD n F) f
+  | [], F, f, _, _ => by simp [finalB, runB, runRefB]
+  | b :: bs, F, f, hF, h => by
+    obtain ⟨x, hx⟩ := h b (by simp)
+    have hrun := run_final n ok src b (Val.empty n :: F) f x (by simp) (by rw [lastD_cons_empty]; exact hx)
+    rw [lastD_cons_empty] at hrun
+    simp only [finalB, runB, runRefB, hrun,
+      runB_final n ok src bs F f hF (fun b' hb' => h b' (by simp [hb']))]
+    cases runRef n ok src b (lastD n F) f <;> cases runRefB n ok src bs (lastD n F) f <;> rfl
+end
+
+/-- **no leak** (last sentence, second half): when the formatting keys of the program can be resolved, the
+flow that the constructed program produces is the reference flow, in which static context enters the
+run-time contexts only at `UpdateContextFromStatic` — as `update_recursively(context, seen)` with `seen` the
+prefix fold — and as the name `MakeFilename` derives from the prefix fold -/
+theorem no_leak (n : Nat) (ok : OutKeys) (src : List Item) (t : Tree) (f : List Item) (x : Ctx)
+    (h : fold n t (Val.empty n) = .ok x) :
+    run n ok src (build n t) f = runRef n ok src t (Val.empty n) f := by
+  rw [build_eq_final]
+  have := run_final n ok src t [Val.empty n] f x (by simp) (by simpa [lastD] using h)
+  simpa [lastD] using this
+
+/-- **why skipping is sound** (the optimisation `if hasattr(el, "_set_context") and context:` of
+`LenaSequence._set_context`): if the context after some elements is empty when they are started from a
+larger context, it was empty already when they were started from a smaller one — so an element that an
+outer pass skips was never given anything but `{}` by the inner passes -/
+theorem skip_sound (n : Nat) (t : Tree) (c d x y : Ctx) (hle : leL c d) (hx : fold n t c = .ok x)
+    (hy : fold n t d = .ok y) (he : nonEmpty y = false) : nonEmpty x = false := by
+  obtain ⟨y', hy', hxy⟩ := fold_mono n t c d x hle hx
+  rw [hy] at hy'; cases hy'
+  exact nonEmpty_false_of_le hxy he
+
+/-- **why a stale `_static_context` cannot hide an error** in `Sequence`/`Split` trees: a pass that starts from
+a larger context succeeds wherever the earlier one did -/
+theorem no_stale_error (n : Nat) (t : Tree) (c d x : Ctx) (hle : leL c d) (hx : fold n t c = .ok x) :
+    ∃ y, fold n t d = .ok y :=
+  let ⟨y, hy, _⟩ := fold_mono n t c d x hle hx; ⟨y, hy⟩
+
+/-! ## non-vacuity: concrete instances of the hypotheses (alphabet `a = 0`, `b = 1`) -/
+section examples
+
+/-- `Sequence(SetContext("a", 1), UpdateContextFromStatic(), Split([Sequence(SetContext("a", 2), StoreContext()),
+Sequence(StoreContext())]), SetContext("b", 3))` -/
+private def ex1 : Tree :=
+  .seq .sequence [.leaf (.set 0 [] (.const (.int 1))), .leaf .ucfs,
+    .split [.seq .sequence [.leaf (.set 0 [] (.const (.int 2))), .leaf .store], .seq .sequence [.leaf .store]],
+    .leaf (.set 1 [] (.const (.int 3)))]
+
+/-- the same prefix, another continuation and another sibling branch -/
+private def ex1' : Tree :=
+  .seq .source [.leaf (.set 0 [] (.const (.int 1))), .leaf .ucfs,
+    .split [.seq .sequence [.leaf (.set 0 [] (.const (.int 2))), .leaf .store],
+            .seq .sequence [.leaf (.set 1 [] (.const (.int 7)))], .seq .sequence []]]
+
+/-- `Sequence(SetContext("a", 1), Sequence(SetContext("b", "{{b}}")))`: `b` cannot be resolved -/
+private def ex2 : Tree :=
+  .seq .sequence [.leaf (.set 0 [] (.const (.int 1))),
+    .seq .sequence [.leaf (.set 1 [] (.tpl { head := "", parts := [([1], "")] }))]]
+
+-- hypotheses of `seen_is_prefix_fold`: the ucfs at [1] and the store at [2, 0, 1]
+example : ex1.at? [1] = some (.leaf .ucfs) := rfl
+example : ctxAt 2 ex1 [1] (Val.empty 2) = some [some (.leaf (.int 1)), none] := rfl
+example : ex1.at? [2, 0, 1] = some (.leaf .store) := rfl
+example : ctxAt 2 ex1 [2, 0, 1] (Val.empty 2) = some [some (.leaf (.int 2)), none] := rfl
+-- … and its conclusion on this instance, computed by the transcribed protocol itself
+example : (build 2 ex1).at? [1] = some (.ucfs [some (.leaf (.int 1)), none]) := rfl
+example : (build 2 ex1).at? [2, 0, 1] = some (.store [some (.leaf (.int 2)), none]) := rfl
+-- the later `SetContext("b", 3)` is in the exported context but not in what the ucfs saw
+example : getCtx 2 (build 2 ex1) = .ok [none, some (.leaf (.int 3))] := rfl
+-- hypotheses of `causality`: same cone in `ex1` and `ex1'`
+example : cone ex1 [2, 0, 1] = cone ex1' [2, 0, 1] := rfl
+example : ∃ k, cone ex1 [2, 0, 1] = some k := ⟨_, rfl⟩
+example : ex1.at? [2, 0, 1] = ex1'.at? [2, 0, 1] := rfl
+-- hypotheses of `split_exports_intersection` / `get_context_at`
+example : ∃ bs, ex1.at? [2] = some (.split bs) := ⟨_, rfl⟩
+example : ctxAt 2 ex1 [2] (Val.empty 2) = some [some (.leaf (.int 1)), none] := rfl
+-- `{a: 2} ∩ {a: 1} = {}`
+example : fold 2 (.split [.seq .sequence [.leaf (.set 0 [] (.const (.int 2))), .leaf .store], .seq .sequence [.leaf .store]])
+    [some (.leaf (.int 1)), none] = .ok [none, none] := rfl
+-- hypothesis of `unresolved_key_surfaces` (the key named is `b = 1`), and the conclusion on the instance
+example : fold 2 ex2 (Val.empty 2) = .error 1 := rfl
+example : getCtx 2 (build 2 ex2) = .error 1 := rfl
+-- hypotheses of `no_leak` and `no_leak_without_consumer`
+example : ∃ x, fold 2 ex1 (Val.empty 2) = .ok x := ⟨_, rfl⟩
+example : (Tree.seq .sequence [.leaf (.set 0 [] (.const (.int 1))), .leaf .store, .leaf .data]).noConsumer = true := rfl
+example : run 2 ⟨0, 1, 0, 1⟩ [] (build 2 (.seq .sequence [.leaf (.set 1 [] (.const (.int 1))), .leaf .ucfs]))
+    [(5, [none, none])] = some [(5, [none, some (.leaf (.int 1))])] := rfl
+-- hypotheses of `skip_sound`: `{} ⊑ {a: 1}`, and the Split that empties both
+example : leL (Val.empty 2) [some (.leaf (.int 1)), none] := by simp [leL, leO, Val.empty, List.replicate]
+
+end examples
+
 end Lena.C13
